@@ -32,14 +32,39 @@ from .yp_prolog_visitor import *
 from .yp_generator import *
 import contextlib
 import click
+from antlr4.error.ErrorListener import ErrorListener
 from .errors import CompilerError
+
+class _SyntaxErrorPosition:
+    '''start position of a syntax error, in the shape CompilerError expects.'''
+    def __init__(self, line, column):
+        self.start = self
+        self.line = line
+        self.column = column
+
+class _RaisingErrorListener(ErrorListener):
+    '''turns every lexer or parser error into a CompilerError instead of
+    printing it and recovering.'''
+    def __init__(self, filename):
+        self.filename = filename
+    def syntaxError(self, recognizer, offendingSymbol, line, column, msg, e):
+        raise CompilerError(self.filename, _SyntaxErrorPosition(line, column), 'syntax error: ' + msg)
 
 def _compile_prolog_from_stream(inp, ctx):
     '''compiles prolog source from an antlr4 stream.'''
+    listener = _RaisingErrorListener(getattr(ctx, 'current_source_file', ''))
     lexer = prologLexer(inp)
+    lexer.removeErrorListeners()
+    lexer.addErrorListener(listener)
     stream = CommonTokenStream(lexer)
     parser = prologParser(stream)
+    parser.removeErrorListeners()
+    parser.addErrorListener(listener)
     tree = parser.program()
+    # the grammar's start rule does not require EOF: make sure nothing is left
+    leftover = stream.LT(1)
+    if leftover.type != Token.EOF:
+        listener.syntaxError(parser, leftover, leftover.line, leftover.column, f'unexpected {leftover.text!r}', None)
     visitor = YPPrologVisitor(ctx)
     program = visitor.visit(tree)
     compiler = YPPrologCompiler(ctx)
